@@ -981,6 +981,12 @@ class Interp:
             v = self.ev(e["args"][0], env, depth)
             if isinstance(v, Opaque):
                 return v
+        if e.get("k") == "mcall" and name in ("min", "max", "saturating_sub", "abs_diff") and len(e.get("args") or []) == 1:
+            a_ = self.ev(e["recv"], env, depth)
+            b_ = self.ev(e["args"][0], env, depth)
+            if isinstance(a_, int) and isinstance(b_, int) and not isinstance(a_, bool) and not isinstance(b_, bool):
+                return {"min": min(a_, b_), "max": max(a_, b_), "saturating_sub": max(a_ - b_, 0), "abs_diff": abs(a_ - b_)}[name]
+            raise Unsupported("%s on %r, %r" % (name, a_, b_))
         if e.get("k") == "mcall" and name in ITER_BUILTINS:
             recv = self.ev(e["recv"], env, depth)
             if isinstance(recv, (str, list)):
@@ -1130,6 +1136,22 @@ CHAR_MODEL = {
 }
 
 
+class _ChunksExact(list):
+    """`xs.chunks_exact(n)`: the full chunks, and what is left over"""
+
+    def __init__(self, xs, n):
+        full = len(xs) // n * n
+        super().__init__([xs[i:i + n] for i in range(0, full, n)])
+        self.rest = xs[full:]
+
+
+def _get(recv, args):
+    i = args[0]
+    if isinstance(recv, list) and isinstance(i, int) and not isinstance(i, bool):
+        return ("__some", recv[i]) if 0 <= i < len(recv) else None
+    raise Unsupported("get")
+
+
 def _nth(it, recv, args, depth):
     n = args[0]
     if not isinstance(recv, list) or not isinstance(n, int):
@@ -1180,6 +1202,11 @@ def _filter(it, recv, args, depth):
 ITER_BUILTINS = {"chars": _chars, "take": _take, "all": _all, "any": _any,
                  "map": lambda it, r, a, d: [it.apply_closure(a[0], [x], d) for x in list(r)],
                  "filter": _filter, "nth": _nth,
+                 "get": lambda it, r, a, d: _get(r, a),
+                 "chunks": lambda it, r, a, d: [list(r)[i:i + a[0]] for i in range(0, len(list(r)), a[0])],
+                 "chunks_exact": lambda it, r, a, d: _ChunksExact(list(r), a[0]),
+                 "remainder": lambda it, r, a, d: r.rest if isinstance(r, _ChunksExact) else (_ for _ in ()).throw(Unsupported("remainder")),
+                 "windows": lambda it, r, a, d: [list(r)[i:i + a[0]] for i in range(0, len(list(r)) - a[0] + 1)],
                  "for_each": lambda it, r, a, d: ([it.apply_closure(a[0], [x], d) for x in list(r)], ())[1],
                  "count": lambda it, r, a, d: len(list(r)),
                  "position": lambda it, r, a, d: next((("__some", i) for i, x in enumerate(list(r)) if it._bool(it.apply_closure(a[0], [x], d))), None),
